@@ -4,6 +4,7 @@ import DvcData.Model.Merge
 import DvcData.Model.Md5
 import DvcData.Model.Hash
 import DvcData.Model.Tree
+import DvcData.Model.Serialize
 open Lean DvcData
 
 /-! Line-protocol driver: one JSON request per line on stdin, one JSON answer per line on stdout.
@@ -205,6 +206,41 @@ def opPath (j : Lean.Json) : Except String Lean.Json := do
   pure (Lean.Json.mkObj [("joined", Lean.Json.arr (ks.map fun k => Lean.Json.str (String.mk (Path.joinC k))).toArray),
     ("split", Lean.Json.arr (ss.map fun s => keyTo (Path.splitC s.toList)).toArray)])
 
+def optB (o : Option Bool) : Lean.Json := match o with | some b => .bool b | none => .null
+
+def entryOf (j : Lean.Json) : Except String MetaInfo.Entry := do
+  let loaded := match j.getObjVal? "loaded" with | .ok (.bool b) => some b | _ => none
+  pure { mt := ← metaOf (j.getObjVal? "meta" |>.toOption.getD .null),
+         hashInfo := ← hiOf (j.getObjVal? "hi" |>.toOption.getD .null), loaded }
+
+def entryTo (e : MetaInfo.Entry) : Lean.Json :=
+  Lean.Json.mkObj [("meta", metaTo e.mt), ("hi", hiTo e.hashInfo), ("loaded", optB e.loaded)]
+
+def optObj (o : Option Json.JObj) : Lean.Json := match o with | some d => jobjTo d | none => .null
+
+def entryDictTo (d : MetaInfo.EntryDict) : Lean.Json :=
+  Lean.Json.mkObj [("meta", optObj d.mt), ("hash_info", optObj d.hashInfo), ("loaded", optB d.loaded)]
+
+def projTo (e : MetaInfo.Entry) : Lean.Json :=
+  let p := e.proj
+  Lean.Json.mkObj [("meta", jobjTo p.1), ("hash_info", jobjTo p.2.1), ("loaded", optB p.2.2)]
+
+/-- to_dict / from_dict(to_dict) of entries, and the '/'-joined index round trip -/
+def opEntries (j : Lean.Json) : Except String Lean.Json := do
+  let es ← (← arr j "entries").toList.mapM fun e => do
+    pure (← keyOf (← e.getObjVal? "key"), ← entryOf e)
+  let dicts := es.map fun p => entryDictTo p.2.toDict
+  let back := es.map fun p => match MetaInfo.Entry.fromDict p.2.toDict with
+    | some e => entryTo e | none => Lean.Json.str "crash"
+  let rt := match Serialize.readJoined (Serialize.writeJoined es) with
+    | some idx => Lean.Json.arr (idx.map fun p => Lean.Json.mkObj [("key", keyTo p.1), ("proj", projTo p.2)]).toArray
+    | none => Lean.Json.str "crash"
+  let rtT := match Serialize.readTrie (Serialize.writeTrie es) with
+    | some idx => Lean.Json.arr (idx.map fun p => Lean.Json.mkObj [("key", keyTo p.1), ("proj", projTo p.2)]).toArray
+    | none => Lean.Json.str "crash"
+  pure (Lean.Json.mkObj [("to_dict", Lean.Json.arr dicts.toArray), ("back", Lean.Json.arr back.toArray),
+    ("proj", Lean.Json.arr (es.map fun p => projTo p.2).toArray), ("joined", rt), ("trie", rtT)])
+
 def kindOf (s : String) : Except String Merge.Kind :=
   match s with
   | "add" => pure .add | "remove" => pure .remove | "change" => pure .change
@@ -233,6 +269,7 @@ def dispatch (j : Json) : Except String Json := do
   | "subtree" => opSubtree j
   | "esc_range" => opEscRange j
   | "path" => opPath j
+  | "entries" => opEntries j
   | "ping" => pure (Json.mkObj [("pong", true)])
   | op => throw s!"unknown op {op}"
 
